@@ -12,7 +12,7 @@
 (***************************************************************************)
 EXTENDS XlsbSheet, Json
 
-CONSTANTS RowSet, ColSet, Vals, Ign, MaxRows, MaxCells, MaxIgn, Pres
+CONSTANTS RowSet, ColSet, Vals, Ign, MaxRows, MaxCells, MaxIgn, Pres, MaxArea
 
 G(id, len) == [id |-> id, len |-> len]
 \* named filler alphabets (cfg files cannot contain records)
@@ -103,7 +103,8 @@ WIgn(g) ==
   /\ UNCHANGED <<wrow, hasrow, wcol, ncell, nrow, pre, done>>
 
 WEnd ==
-  /\ ~done /\ done' = TRUE
+  /\ ~done /\ AreaWithin(Ideal(toks, SST), MaxArea)
+  /\ done' = TRUE
   /\ UNCHANGED <<toks, wrow, hasrow, wcol, ncell, nign, nrow, pre, rd>>
 
 Next == \/ \E r \in RowSet : WRow(r)
